@@ -52,6 +52,10 @@ type c12case struct {
 	RewriteArgs bool `json:"os_args_rewritten_at_run_time,omitempty"`
 	// a per-level writer for the severity was added and removed again: the class device applies
 	LevelWriterGone bool `json:"level_writer_added_and_removed,omitempty"`
+	// the message ends in line breaks (the panic value is the message, byte for byte)
+	TrailingBreaks bool `json:"message_ends_in_line_breaks,omitempty"`
+	// an earlier Panic on the same logger was recovered by the application before this call
+	AfterRecoveredPanic bool `json:"after_an_earlier_recovered_panic,omitempty"`
 }
 
 // failAfterStore writes the payload through and reports an error all the same.
@@ -146,6 +150,14 @@ func c12enumerate() []c12case {
 		x := b
 		x.LevelWriterGone = true
 		xs = append(xs, x)
+		if b.Sev == "panic" {
+			y := b
+			y.TrailingBreaks = true
+			xs = append(xs, y)
+		}
+		z := b
+		z.AfterRecoveredPanic = true
+		xs = append(xs, z)
 		if k%2 == 1 && len(xs) > 1 {
 			xs[0], xs[len(xs)-1] = xs[len(xs)-1], xs[0]
 		}
@@ -178,7 +190,10 @@ type c12result struct {
 	ValueT   string `json:"panic_type"`
 }
 
-const c12msg = "c12-terminating-message #id42#"
+const c12msgBase = "c12-terminating-message #id42#"
+
+// c12msg is the message of the current probe process (the base text, or the base text with trailing line breaks).
+var c12msg = c12msgBase
 
 // c12exec is the probe process: it performs exactly one call and reports what it could observe itself.
 func c12exec(c *Ctx, out string) {
@@ -226,6 +241,9 @@ func c12exec(c *Ctx, out string) {
 	if got := slog.GetFlags(); (got&slog.LnoInterrupt != 0) != cs.NoInt || (got&slog.Linterruptalways != 0) != cs.Always {
 		fmt.Fprintln(os.Stderr, "harness usage error: flags not established", got)
 		os.Exit(3)
+	}
+	if cs.TrailingBreaks {
+		c12msg = c12msgBase + "\r\n\n"
 	}
 	if cs.PkgLevelOff {
 		slog.SetLevel(slog.OffLevel)
@@ -279,6 +297,13 @@ func c12exec(c *Ctx, out string) {
 	ctx := context.Background()
 	if cs.NilCtxKeys {
 		ctx = nil
+	}
+	if cs.AfterRecoveredPanic {
+		// the application survived an earlier Panic of this logger (it recovered); the next one is like the first
+		func() {
+			defer func() { _ = recover() }()
+			lg.Panic("an earlier panic that the application recovered from", "k", 0)
+		}()
 	}
 	var res c12result
 	func() {
@@ -438,7 +463,7 @@ func c12matrix(c *Ctx) {
 		case terminate && cs.Sev == "panic":
 			if exit != 0 || res == nil || !res.Panicked {
 				fail("panic-expected", "admitted Panic without no-interrupt flag must panic")
-			} else if res.Value != c12msg || res.ValueT != "string" {
+			} else if wantMsg := map[bool]string{false: c12msgBase, true: c12msgBase + "\r\n\n"}[cs.TrailingBreaks]; res.Value != wantMsg || res.ValueT != "string" {
 				fail("panic-value", fmt.Sprintf("panic value is %q (%s), expected the message", res.Value, res.ValueT))
 			} else {
 				c.R.Add("panics_observed", 1)
